@@ -33,6 +33,15 @@ theorem loopN_repeat {step : List Ev → Res} {o : Out} {ext : List Ev} (h : ∀
     have ih := loopN_repeat h k
     cases o <;> simp [loopN, repeatIter, h tr, ih]
 
+/-- closed form: the events of the first iteration, as many times as iterations run -/
+theorem repeatIter_closed (o : Out) (ext : List Ev) :
+    ∀ k tr, repeatIter o ext k tr = (loopOutcome o k, tr ++ (List.replicate (iterCount o k) ext).flatten)
+  | 0, tr => by cases o <;> simp [repeatIter, loopOutcome, iterCount]
+  | k+1, tr => by
+    have ih := repeatIter_closed o ext k
+    cases o <;> simp [repeatIter, loopOutcome, iterCount, ih, List.replicate_succ]
+    all_goals (cases k <;> simp [loopOutcome])
+
 theorem uni_repeatIter (o : Out) (ext : List Ev) : ∀ k, Uniform (repeatIter o ext k)
   | 0 => ⟨.normal, [], fun tr => by simp [repeatIter] <;> rfl⟩
   | k+1 => by
